@@ -379,7 +379,62 @@ fn c10_dispatch_pos_9() {
 #[kani::stub(crate::proto::rpc::repl_udp, tag_rpc_udp)]
 #[kani::stub(crate::proto::smb::repl_smb1, tag_smb1)]
 #[kani::stub(crate::proto::smb::repl_smb2, tag_smb2)]
-#[kani::stub(<crate::proto::dns::DNSPacket as std::convert::TryFrom<Vec<u8>>>::try_from, dns_try_from_stub)]
+#[kani::stub(<crate::proto::dns::DNSPacket as std::convert::TryFrom<std::vec::Vec<u8>>>::try_from, dns_try_from_stub)]
 fn c10_dispatch_neg_6() {
     dispatch_negative()
+}
+
+/// per-flow dispatcher state lives in the flow's control block only: handling a segment of
+/// another flow in between changes nothing for this flow
+fn dispatch_isolation() {
+    lazy_static::initialize(&PROTO_SMACK);
+    let a: [u8; 4] = kani::any();
+    let b: [u8; 4] = kani::any();
+    let x: [u8; 5] = kani::any();
+    let masscanned = ms_plain([0, 0], MacAddr::new(0, 1, 2, 3, 4, 5));
+    // run 1: flow F sends a, foreign flow G sends x, F sends b
+    let mut f1 = TCPControlBlock { smack_state: BASE_STATE, proto_id: PROTO_NONE, proto_state: None };
+    let mut g = TCPControlBlock { smack_state: BASE_STATE, proto_id: PROTO_NONE, proto_state: None };
+    let mut cf = ci_any(false, true);
+    let mut cg = ci_any(false, true);
+    let r1a = repl(&a, &masscanned, &mut cf, Some(&mut f1));
+    let _ = repl(&x, &masscanned, &mut cg, Some(&mut g));
+    let r1b = repl(&b, &masscanned, &mut cf, Some(&mut f1));
+    // run 2: flow F alone
+    let mut f2 = TCPControlBlock { smack_state: BASE_STATE, proto_id: PROTO_NONE, proto_state: None };
+    let r2a = repl(&a, &masscanned, &mut cf, Some(&mut f2));
+    let r2b = repl(&b, &masscanned, &mut cf, Some(&mut f2));
+    assert!(r1a.is_some() == r2a.is_some() && r1b.is_some() == r2b.is_some(), "C08: traffic of another flow changed whether a segment is answered");
+    assert!(f1.proto_id == f2.proto_id && f1.smack_state == f2.smack_state, "C08: traffic of another flow changed this flow's dispatcher state");
+    if let (Some(p), Some(q)) = (&r1b, &r2b) {
+        assert!(p[0] == q[0], "C08: traffic of another flow changed which responder answers");
+    }
+    kani::cover!(r1b.is_some(), "second segment dispatched");
+    kani::cover!(r1a.is_none() && r1b.is_none(), "nothing dispatched");
+    std::mem::forget(f1);
+    std::mem::forget(f2);
+    std::mem::forget(g);
+}
+
+//# harness: c08_dispatch_isolation
+//# props: C08
+//# tier: quick
+//# encodes: proto::repl (TCP mode) on the real PROTO tables
+//# bounds: flow F sends 4 + 4 arbitrary bytes in two segments; a foreign flow G sends 5 arbitrary bytes in between; compared with F alone
+//# stubs: the eight responders -> tag-returning functions; proto_init -> real tables
+//# cover: second segment dispatched
+//# cover: nothing dispatched
+#[kani::proof]
+#[kani::unwind(12)]
+#[kani::stub(crate::proto::proto_init, crate::proto::verif_proto_init_stub)]
+#[kani::stub(crate::proto::http::repl, tag_http)]
+#[kani::stub(crate::proto::stun::repl, tag_stun)]
+#[kani::stub(crate::proto::ssh::repl, tag_ssh)]
+#[kani::stub(crate::proto::ghost::repl, tag_ghost)]
+#[kani::stub(crate::proto::rpc::repl_tcp, tag_rpc_tcp)]
+#[kani::stub(crate::proto::rpc::repl_udp, tag_rpc_udp)]
+#[kani::stub(crate::proto::smb::repl_smb1, tag_smb1)]
+#[kani::stub(crate::proto::smb::repl_smb2, tag_smb2)]
+fn c08_dispatch_isolation() {
+    dispatch_isolation()
 }
